@@ -48,8 +48,8 @@ def erf (x : Float) : Float :=
 /-- the functions `convert_ops_to_lut` passes to the generators, operation for operation -/
 def realFn : String → Option (Float → Float)
   | "exp" => some Float.exp
-  | "log" => some fun v => Float.log (if v == 0 then dblMin else v)
-  | "sqrt" => some Float.sqrt
+  | "log" => some fun v => Float.log (if v ≤ 0 then dblMin else v)          -- "Log is only defined for positive values"
+  | "sqrt" => some fun v => Float.sqrt (if 0.0 < v then v else 0.0)         -- math.sqrt(max(0.0, value))
   | "gelu" => some fun x => 0.5 * x * (1 + erf (x / Float.sqrt 2))
   | "gelu_tanh" => some fun x =>
       0.5 * x * (1 + Float.tanh (Float.sqrt (2 / pi) * (x + 0.044715 * Float.pow x 3)))
@@ -89,6 +89,7 @@ def sample16 (fn : Float → Float) (inMin step halfStep outInv : Float) (i : Na
   let midVal := roundAwayZero (vMid * outInv)
   let midErr := midInterp - midVal
   let bias := roundAwayZero (midErr / 2)
+  let bias := if bias.isNaN then 0 else bias        -- inf − inf (function value beyond the float range): the entry saturates
   let r := sampleVal - bias
   let r := if r > -32768 then r else -32768
   let r := if r < 32767 then r else 32767
@@ -103,9 +104,11 @@ def table16 (fn : Float → Float) (inMin inMax outInv : Float) : List (Int × I
   let last := if last < 32767 then last else 32767
   body ++ [(toI last, tieDist (fn inMax * outInv))]
 
-/-- hardware words: `slope = (v[i+1] − v[i]) << 16`, `base = v[i]`, word = `slope + base` (Python int, may be negative) -/
+/-- hardware words of the 16-bit table: bits [31:16] = slope `v[i+1] − v[i]`, bits [15:0] = base `v[i]`, each a 16-bit
+    two's-complement field (the format `tflite_graph_optimiser` itself documents for the ArgMax table:
+    "the top 16 bits represent the slope and bottom 16 bits the base") -/
 def words16 (vals : List Int) : List Int :=
-  (vals.zip (vals.drop 1)).map fun (a, b) => (b - a) * 65536 + a
+  (vals.zip (vals.drop 1)).map fun (a, b) => ((b - a) % 65536) * 65536 + a % 65536
 
 structure Range16 where
   inMin : Float
